@@ -442,6 +442,64 @@ quiet_probes(nng_ctx pc, bool sock_free, nng_aio *a1, nng_aio *a2)
 	}
 }
 
+// ------------------------------------------------------------ requester gone before the reply
+// A request is received, its connection disappears, then the reply is sent
+// (whatever that send returns, the request is consumed by it): a further send
+// without a receive must be refused like any other.
+static long probe_gone_send;
+
+static void
+gone_probe(nng_ctx pc, bool use_sock, nng_aio *a1, nng_aio *a2)
+{
+	nng_socket xs;
+	nng_msg   *m;
+	int        rv, base = vf_pipe_count(G.rep);
+	worker     pw = { .idx = 98, .is_sock = use_sock, .ctx = pc };
+	if ((rv = nng_req0_open_raw(&xs)) != 0) vf_harness_fail("xreq open");
+	nng_socket_set_ms(xs, NNG_OPT_SENDTIMEO, LONG_MS);
+	if ((rv = nng_dial(xs, G.xurl, NULL, 0)) != 0) vf_harness_fail("gone probe dial %s: %s", G.xurl, nng_strerror(rv));
+	for (int i = 0; vf_pipe_count(G.rep) < base + 1; i++) {
+		if (i > 5000) vf_harness_fail("gone probe: connection did not appear");
+		vf_msleep(1);
+	}
+	if (nng_msg_alloc(&m, 0) != 0) vf_harness_fail("msg alloc");
+	nng_msg_header_append_u32(m, 0x80000777u);
+	nng_msg_append(m, "gone-probe", 10);
+	if ((rv = nng_sendmsg(xs, m, 0)) != 0) vf_harness_fail("gone probe send: %s", nng_strerror(rv));
+	nng_aio_set_timeout(a1, 5000);
+	if (use_sock) {
+		nng_socket_recv(G.rep, a1);
+	} else {
+		nng_ctx_recv(pc, a1);
+	}
+	nng_aio_wait(a1);
+	if ((rv = nng_aio_result(a1)) != 0) {
+		nng_socket_close(xs);
+		if (rv == NNG_ETIMEDOUT) return; // C02's stale expiry; nothing to judge
+		vf_harness_fail("gone probe recv: %s", nng_strerror(rv));
+	}
+	m = nng_aio_get_msg(a1);
+	nng_aio_set_msg(a1, NULL);
+	nng_msg_free(m);
+	nng_socket_close(xs);
+	for (int i = 0; vf_pipe_count(G.rep) > base; i++) {
+		if (i > 5000) vf_harness_fail("gone probe: connection did not disappear");
+		vf_msleep(1);
+	}
+	if (nng_msg_alloc(&m, 8) != 0) vf_harness_fail("msg alloc");
+	nng_aio_set_msg(a2, m);
+	nng_aio_set_timeout(a2, 2000);
+	w_send(&pw, a2);
+	nng_aio_wait(a2);
+	rv = nng_aio_result(a2);
+	if (rv != 0) {
+		if ((m = nng_aio_get_msg(a2)) != NULL) nng_msg_free(m);
+		nng_aio_set_msg(a2, NULL);
+	}
+	vf_class("rep/gone-before-reply/%s/first-send=%s", use_sock ? "socket" : "context", errname(rv));
+	if (expect_estate_send(&pw, a2, "after-reply-to-gone")) probe_gone_send++;
+}
+
 // ------------------------------------------------------------ one case
 static void
 run_case(long idx, const casecfg *cc)
@@ -462,7 +520,7 @@ run_case(long idx, const casecfg *cc)
 	vf_watchdog(240);
 	vf_rng_seed(&r, cc->key, 1);
 	atomic_store(&G.stop, false);
-	probe_second_recv = probe_idle_send = 0;
+	probe_second_recv = probe_idle_send = probe_gone_send = 0;
 	for (int i = 0; i < MAXWORDS; i++) G.common[i] = (uint32_t) vf_rand(&r) & 0x7fffffffu;
 	G.common[MAXWORDS - 1] |= 0x80000000u;
 
@@ -561,6 +619,8 @@ run_case(long idx, const casecfg *cc)
 	atomic_store(&G.stop, true);
 	for (int i = 0; i < cc->nworkers; i++) pthread_join(wk[i].thr, NULL);
 	pthread_barrier_destroy(&G.bar);
+	gone_probe(pc, false, a1, a2);
+	gone_probe(pc, true, a1, a2);
 
 	// evidence
 	long verified = 0, sent = 0, drops = 0, served = 0, wdrops = 0, common = 0;
@@ -600,6 +660,7 @@ run_case(long idx, const casecfg *cc)
 	vf_stat("rep_shared_backtrace_requests", common);
 	vf_stat("estate_rep_second_recv", probe_second_recv);
 	vf_stat("estate_rep_send_idle", probe_idle_send);
+	vf_stat("estate_rep_send_after_reply_to_gone", probe_gone_send);
 	vf_stat("connections", cc->npeers);
 	vf_stat("cases", 1);
 	if ((idx & 7) == 0) {
